@@ -3,9 +3,24 @@
 package main
 
 import (
+	"go/types"
+
 	"github.com/benoitkugler/gomacro/analysis"
+	ansql "github.com/benoitkugler/gomacro/analysis/sql"
+	"github.com/benoitkugler/gomacro/generator"
+	gensql "github.com/benoitkugler/gomacro/generator/sql"
 )
 
 const hooksEnabled = true
 
 func hookCommonPrefix(paths []string) string { return analysis.VerifCommonPrefix(paths) }
+
+func hookIsUniques(ct string) []string { return ansql.VerifIsUniquesConstraint(ct) }
+func hookIsUnique(ct string) string    { return ansql.VerifIsUniqueConstraint(ct) }
+func hookIsSelectKey(ct string) []string { return ansql.VerifIsSelectKey(ct) }
+func hookNewCustomQuery(cols map[string]types.Type, comment string) ansql.CustomQuery {
+	return ansql.VerifNewCustomQuery(cols, comment)
+}
+func hookCustomConstraint(ana *analysis.Analysis, ta ansql.Table, rep generator.TableNameReplacer, content string) string {
+	return gensql.VerifGenerateCustomConstraint(ana, ta, rep, content)
+}
